@@ -10,6 +10,7 @@
 #include <initializer_list>
 #include <iterator>
 #include <list>
+#include <memory>
 #include <sstream>
 #include <stdexcept>
 #include <string>
@@ -469,6 +470,60 @@ static void hook_scenario (std::size_t pre)
   if (g_hook_blocks != 0) { fail ("allocator with hooks: blocks not returned"); g_hook_blocks = 0; }
 }
 
+// a MOVE-ONLY element type (std::unique_ptr<int>): everything std::vector offers for it — emplace_back, push_back (T&&),
+// insert / emplace of an rvalue, erase, pop_back, resize (n), reserve, shrink_to_fit, move construction / assignment across
+// inline capacities, swap, append (small_vector&&), clear — compared with std::vector through the pointees
+template <typename V>
+static void same_ptrs (const V& v, const std::vector<std::unique_ptr<int>>& s, const char *what, unsigned n)
+{
+  ++g_checks;
+  bool ok = v.size () == s.size ();
+  for (std::size_t i = 0; ok && i < s.size (); ++i) ok = (! v[i] && ! s[i]) || (v[i] && s[i] && *v[i] == *s[i]);
+  if (! ok) fail (std::string (what) + " (move-only element type, N=" + std::to_string (n) + ", size " + std::to_string (v.size ()) + " vs " + std::to_string (s.size ()) + ")");
+}
+
+template <unsigned N, unsigned M>
+static void moveonly_scenario (std::size_t pre)
+{
+  typedef std::unique_ptr<int> P;
+  typedef gch::small_vector<P, N> V;
+  typedef gch::small_vector<P, M> W;
+  typedef std::vector<P> S;
+  V v; S s;
+  for (std::size_t i = 0; i < pre; ++i) { v.emplace_back (new int (static_cast<int> (i))); s.emplace_back (new int (static_cast<int> (i))); }
+  same_ptrs (v, s, "emplace_back", N);
+  v.push_back (P (new int (100))); s.push_back (P (new int (100))); same_ptrs (v, s, "push_back (T&&)", N);
+  for (std::size_t p = 0; p <= s.size (); p += (s.size () > 2 ? s.size () / 2 : 1))
+  {
+    typename V::iterator it = v.insert (v.begin () + static_cast<std::ptrdiff_t> (p), P (new int (200 + static_cast<int> (p))));
+    typename S::iterator is = s.insert (s.begin () + static_cast<std::ptrdiff_t> (p), P (new int (200 + static_cast<int> (p))));
+    if (it - v.begin () != is - s.begin ()) fail ("insert (pos, T&&) returns a different position (move-only element type)");
+    same_ptrs (v, s, "insert (pos, T&&)", N);
+    v.emplace (v.begin () + static_cast<std::ptrdiff_t> (p), new int (300)); s.emplace (s.begin () + static_cast<std::ptrdiff_t> (p), new int (300));
+    same_ptrs (v, s, "emplace (pos, args)", N);
+  }
+  v.erase (v.begin ()); s.erase (s.begin ()); same_ptrs (v, s, "erase (pos)", N);
+  if (s.size () > 3) { v.erase (v.begin () + 1, v.begin () + 3); s.erase (s.begin () + 1, s.begin () + 3); same_ptrs (v, s, "erase (first, last)", N); }
+  v.resize (static_cast<typename V::size_type> (s.size () + 2)); s.resize (s.size () + 2); same_ptrs (v, s, "resize (n) growing", N);
+  v.reserve (static_cast<typename V::size_type> (2 * s.size () + 3)); same_ptrs (v, s, "reserve", N);
+  v.shrink_to_fit (); same_ptrs (v, s, "shrink_to_fit", N);
+  v.pop_back (); s.pop_back (); same_ptrs (v, s, "pop_back", N);
+  { V x (std::move (v)); same_ptrs (x, s, "move construction", N); v = std::move (x); same_ptrs (v, s, "move assignment", N); }
+  { W w (std::move (v)); same_ptrs (w, s, "move construction across inline capacities", M); v.assign (std::move (w)); same_ptrs (v, s, "assign (small_vector<T, M>&&)", N); }
+  {
+    V y; y.emplace_back (new int (7)); S sy; sy.emplace_back (new int (7));
+    y.swap (v); sy.swap (s); same_ptrs (v, s, "swap, argument", N); same_ptrs (y, sy, "swap, receiver", N);
+    W w; w.emplace_back (new int (8)); w.emplace_back (new int (9));
+    y.append (std::move (w));
+    sy.emplace_back (new int (8)); sy.emplace_back (new int (9));
+    same_ptrs (y, sy, "append (small_vector<T, M>&&)", N);
+    if (! w.empty ()) fail ("append (small_vector&&) leaves a non-empty source (move-only element type)");
+    v.swap (y); s.swap (sy);
+  }
+  v.resize (static_cast<typename V::size_type> (s.size () / 2)); s.resize (s.size () / 2); same_ptrs (v, s, "resize (n) shrinking", N);
+  v.clear (); s.clear (); same_ptrs (v, s, "clear", N);
+}
+
 // an element type WITHOUT assignment operators (std::vector accepts it for construction, push_back / emplace_back,
 // reserve, resize, pop_back, clear and assign from single-pass iterators): the header has a dedicated
 // assign_with_range overload for it ("if not assignable then destroy all elements and append")
@@ -548,6 +603,7 @@ int main (void)
   for (std::size_t pre = 0; pre <= 7; pre += 1)
   {
     fancy_scenario<int, 0> (pre); fancy_scenario<int, 3> (pre); fancy_scenario<std::string, 0> (pre); fancy_scenario<std::string, 4> (pre);
+    moveonly_scenario<0, 3> (pre); moveonly_scenario<3, 1> (pre); moveonly_scenario<2, 2> (pre); moveonly_scenario<5, 0> (pre);
     hook_scenario<int, 0> (pre); hook_scenario<int, 3> (pre); hook_scenario<std::string, 0> (pre); hook_scenario<std::string, 4> (pre);
   }
   iterator_scenarios<int, 0> (); iterator_scenarios<int, 3> (); iterator_scenarios<int, 8> ();
